@@ -884,6 +884,10 @@ func runScenario(r *vlib.Run, mode string, trial int, rng *rand.Rand) {
 		}
 		if err != nil {
 			openGates()
+			if pctx.Err() != nil || strings.Contains(err.Error(), "DeadlineExceeded") || strings.Contains(err.Error(), "deadline exceeded") {
+				r.Inconclusive("pollclient: the POLL subscription did not complete its first rounds within 30 s (loaded machine)")
+				return
+			}
 			r.Violation(mode, trial, "subscribe-refused", fmt.Sprintf("client-library POLL subscription for target \"*\" through the collector failed: %v", err), wit())
 			return
 		}
